@@ -1,5 +1,7 @@
 package main
 
+import "fmt"
+
 // kind "render": {doc:[Node], data:{...}, debug:bool}; impl = {class, out, msg, src?}
 
 func init() {
@@ -10,8 +12,12 @@ func runRender(c Case) interface{} {
 	doc := asList(c["doc"])
 	ast := pugDoc(doc)
 	if m, _ := c["modes"].(string); m == "both" {
-		p := renderOne(ast, c["data"], false, nil)
-		d := renderOne(ast, c["data"], true, nil)
+		files := map[string]string{"t": ast}
+		for i, sd := range asList(c["siblings"]) {
+			files[[]string{"a", "u", "m", "z0"}[i%4]+fmt.Sprint(i)] = pugDoc(asList(sd))
+		}
+		p := renderAmong(files, c["data"], false, nil)
+		d := renderAmong(files, c["data"], true, nil)
 		return J{"prod": J{"class": p.Class, "out": p.Out, "msg": p.Msg}, "debug": J{"class": d.Class, "out": d.Out, "msg": d.Msg}}
 	}
 	if sub, ok := c["subst"].(map[string]interface{}); ok {
@@ -31,6 +37,18 @@ func runRender(c Case) interface{} {
 		return J{"class": res.Class, "out": res.Out, "msg": res.Msg, "tok": tokenize(res.Out)}
 	}
 	debug, _ := c["debug"].(bool)
+	if _, marked := c["go_data"]; marked {
+		c["data"] = reviveGo(c["data"]) // {"__go": ...} markers become Go values a JSON file cannot carry
+	}
+	if sib := asList(c["siblings"]); len(sib) > 0 {
+		// other page templates in the SAME directory (names sorting before and after "t"): what they define must not leak
+		files := map[string]string{"t": ast}
+		for i, sd := range sib {
+			files[[]string{"a", "u", "m", "z0"}[i%4]+fmt.Sprint(i)] = pugDoc(asList(sd))
+		}
+		res := renderAmong(files, c["data"], debug, nil)
+		return J{"class": res.Class, "out": res.Out, "msg": res.Msg}
+	}
 	res := renderOne(ast, c["data"], debug, nil)
 	return J{"class": res.Class, "out": res.Out, "msg": res.Msg}
 }
